@@ -202,7 +202,7 @@ xregex_match_sub_strdup(xregex_match_t xm, int i)
         regmatch_t m = xm->xm_pmatch[i];
 
         assert(xm->xm_str != NULL);
-        assert(m.rm_so < m.rm_eo);
+        assert(m.rm_so <= m.rm_eo);
         s = xmalloc(m.rm_eo - m.rm_so + 1);
         memcpy(s, xm->xm_str + m.rm_so, m.rm_eo - m.rm_so);
         s[m.rm_eo - m.rm_so] = '\0';
